@@ -1,5 +1,5 @@
-CONSTANT PopLast = FALSE
-CONSTANT AsFoundFold = TRUE
+CONSTANT PopLast = TRUE
+CONSTANT AsFoundFold = FALSE
 INIT Init
 NEXT Next
 INVARIANT Monitors
